@@ -9,6 +9,7 @@ CONSTANTS
   KeyPart <- KeyPartDef
   DefKey <- DefKeyDef
   Invalids <- InvalidsDef
+  Conns = {1}
   Strict = FALSE
   MaxCmd = 3
   EmitAt = 99
